@@ -67,6 +67,12 @@ Model/SolutionsCheck.vos Model/SolutionsCheck.vok Model/SolutionsCheck.required_
 Model/OpCheck.vo Model/OpCheck.glob Model/OpCheck.v.beautified Model/OpCheck.required_vo: Model/OpCheck.v Model/Term.vo Model/OpTable.vo Gen/Bootstrap_gen.vo
 Model/OpCheck.vio: Model/OpCheck.v Model/Term.vio Model/OpTable.vio Gen/Bootstrap_gen.vio
 Model/OpCheck.vos Model/OpCheck.vok Model/OpCheck.required_vos: Model/OpCheck.v Model/Term.vos Model/OpTable.vos Gen/Bootstrap_gen.vos
+Model/Rel.vo Model/Rel.glob Model/Rel.v.beautified Model/Rel.required_vo: Model/Rel.v Model/Term.vo Model/Unify.vo
+Model/Rel.vio: Model/Rel.v Model/Term.vio Model/Unify.vio
+Model/Rel.vos Model/Rel.vok Model/Rel.required_vos: Model/Rel.v Model/Term.vos Model/Unify.vos
+Model/RelCheck.vo Model/RelCheck.glob Model/RelCheck.v.beautified Model/RelCheck.required_vo: Model/RelCheck.v Model/Term.vo Model/Unify.vo Model/TermCheck.vo Model/Rel.vo
+Model/RelCheck.vio: Model/RelCheck.v Model/Term.vio Model/Unify.vio Model/TermCheck.vio Model/Rel.vio
+Model/RelCheck.vos Model/RelCheck.vok Model/RelCheck.required_vos: Model/RelCheck.v Model/Term.vos Model/Unify.vos Model/TermCheck.vos Model/Rel.vos
 Model/Loader.vo Model/Loader.glob Model/Loader.v.beautified Model/Loader.required_vo: Model/Loader.v 
 Model/Loader.vio: Model/Loader.v 
 Model/Loader.vos Model/Loader.vok Model/Loader.required_vos: Model/Loader.v 
@@ -157,3 +163,9 @@ Proofs/Loader.vos Proofs/Loader.vok Proofs/Loader.required_vos: Proofs/Loader.v 
 Props/C20.vo Props/C20.glob Props/C20.v.beautified Props/C20.required_vo: Props/C20.v Model/Loader.vo Proofs/Loader.vo
 Props/C20.vio: Props/C20.v Model/Loader.vio Proofs/Loader.vio
 Props/C20.vos Props/C20.vok Props/C20.required_vos: Props/C20.v Model/Loader.vos Proofs/Loader.vos
+Proofs/Rel.vo Proofs/Rel.glob Proofs/Rel.v.beautified Proofs/Rel.required_vo: Proofs/Rel.v Model/Term.vo Model/Unify.vo Model/Rel.vo Proofs/Unify.vo
+Proofs/Rel.vio: Proofs/Rel.v Model/Term.vio Model/Unify.vio Model/Rel.vio Proofs/Unify.vio
+Proofs/Rel.vos Proofs/Rel.vok Proofs/Rel.required_vos: Proofs/Rel.v Model/Term.vos Model/Unify.vos Model/Rel.vos Proofs/Unify.vos
+Props/C16.vo Props/C16.glob Props/C16.v.beautified Props/C16.required_vo: Props/C16.v Model/Term.vo Model/Unify.vo Model/Rel.vo Proofs/Unify.vo Proofs/Rel.vo
+Props/C16.vio: Props/C16.v Model/Term.vio Model/Unify.vio Model/Rel.vio Proofs/Unify.vio Proofs/Rel.vio
+Props/C16.vos Props/C16.vok Props/C16.required_vos: Props/C16.v Model/Term.vos Model/Unify.vos Model/Rel.vos Proofs/Unify.vos Proofs/Rel.vos
